@@ -110,6 +110,8 @@ type rnode struct {
 	core zapcore.Core
 	leaf int // leaf index (leaves)
 	hook int // hook index (kHooks)
+	// spent (kOnce): the sampler has already let its first entry through
+	spent bool
 }
 
 type sink struct {
@@ -251,6 +253,10 @@ func (t *rt) build(rp *reporter, n *node, path string) *rnode {
 		r.core = zapcore.RegisterHooks(r.kids[0].core, func(zapcore.Entry) error { t.hooks[idx]++; return nil })
 	case kSampler:
 		r.core = zapcore.NewSampler(r.kids[0].core, time.Hour, math.MaxInt32, 1)
+	case kDrop:
+		r.core = zapcore.NewSamplerWithOptions(r.kids[0].core, time.Hour, 0, 0)
+	case kOnce:
+		r.core = zapcore.NewSamplerWithOptions(r.kids[0].core, time.Hour, 1, 0)
 	case kLazy:
 		r.core = zapcore.NewLazyWith(r.kids[0].core, []zapcore.Field{zap.Object("lz", countM{&t.lazyM})})
 	case kWith:
@@ -422,6 +428,10 @@ func (t *rt) run(rp *reporter, ci *callInfo, l int8, f func()) {
 			key = "hook:fired-for-an-entry-that-was-checked-but-never-written"
 		case want == 0:
 			key = "hook:fired-though-wrapped-core-rejected:" + where
+			if h := findHook(t.model, i); h != nil && accept(h.kids[0], l, t.cur) {
+				// the level is enabled below the hook, yet the wrapped core (a sampler) declined in Check
+				key += ":wrapped-core-enables-the-level-but-declined-in-Check"
+			}
 		case got == 0:
 			key = "hook:not-fired-for-accepted-entry:" + where
 		default:
